@@ -52,8 +52,6 @@ theorem pack_existing_setup {w : WM} {iss : List Handle} {s : WS} (hi : Inv ⟨w
       (if ((first :: rest).foldl bodyFlags (false, false)).2 then insertNat s.marked k else s.marked) := by
   have hpi : pi < w.archs.length := lt_of_row hrow
   have hpm : MaskOk (w.arch pi).mask := hi.keys.masks pi hpi
-  have hcl : ClosedUnder w.deps (w.arch pi).mask := hi.closed _ (arch_mem hpi)
-  have hcm : closedMask w.deps (w.arch pi).mask = (w.arch pi).mask := closedMask_eq_self hpm hcl
   have hplen : prow.vals.length = (w.arch pi).mask.length := hi.rows.vals pi i prow hrow
   have hklt : k < s.ents.length := by rw [hr.len]; exact (List.getElem?_eq_some_iff.mp hk).1
   have hstart : packStart w first = some (w, (w.arch pi).mask, (w.arch pi).shared) := by
@@ -65,7 +63,7 @@ theorem pack_existing_setup {w : WM} {iss : List Handle} {s : WS} (hi : Inv ⟨w
   · rw [applyPack_eq, hstart]
     simp only [hfc, Bool.false_eq_true, if_false, packInit_existing]
     rw [hbf.1]
-  · have hp0 := pinv_init_existing info (deps := w.deps) (k := k) hrel.1 hplen hpm hcl
+  · have hp0 := pinv_init_existing info (deps := w.deps) (k := k) hrel.1 hplen hpm
     have hsp0 : SpecPackInv info w.deps ent.comps (w.arch pi).mask k ent.shared { final := (w.arch pi).mask } s [] := by
       unfold SpecPackInv
       simp only [Bool.false_eq_true, if_false]
